@@ -1169,6 +1169,7 @@ func c05InvolutionWitnesses(r *Run) {
 
 func propC05(r *Run) {
 	defer c05CliOracles(r)
+	c05LocateCases(r)
 	L, _, nRandom := scope(r)
 	r.exhaustive = true
 	c05InvolutionWitnesses(r)
